@@ -12,6 +12,11 @@ namespace Receptor.DER
 /-- **Tie (translator)**: the source currently strips the header by parsing it. -/
 theorem C20_facts : stripOfFact Receptor.Facts.der_strip = some .parsed := by decide
 
+/-- **Tie (translator)**: the peer verifier that judges issued certificates is a closure that reads the clock at
+every handshake (every validity window is judged at the time of use, not at the time the verifier was made). -/
+theorem C20_verifier_facts :
+    Receptor.Facts.rvf_closure = "single-return-closure;CurrentTime:time.Now()x2;empty-chain:refused" := by decide +kernel
+
 /-- **C20 main theorem.** For every list of DNS names, IP addresses and node IDs
 (any lengths, any valid UTF-8 — in particular across the 127/128-byte DER
 length threshold), reading the receptor names back from the extension that
